@@ -5,6 +5,7 @@ import (
 	"net/netip"
 	"os"
 	"path/filepath"
+	"regexp"
 	"sort"
 	"strconv"
 	"strings"
@@ -44,14 +45,17 @@ type c02HostLine struct {
 }
 
 type c02List struct {
-	lines  []string
-	specs  map[string]*gen.Spec // network rule text -> spec
+	lines []string
+	specs map[string]*gen.Spec // network rule text -> spec
+	// exprs holds, for regular-expression rules derived from a host name, the
+	// expression compiled independently of the library.
+	exprs  map[string]*regexp.Regexp
 	hosts  []c02HostLine
 	nhosts []string // host names of interest
 }
 
 func c02MakeList(c *core.Ctx) *c02List {
-	l := &c02List{specs: map[string]*gen.Spec{}}
+	l := &c02List{specs: map[string]*gen.Spec{}, exprs: map[string]*regexp.Regexp{}}
 	names := append([]string(nil), c02Hosts...)
 	for i := 0; i < 3; i++ {
 		g := gen.HostGroups[c.Rng.Intn(len(gen.HostGroups))]
@@ -164,6 +168,40 @@ func c02MakeList(c *core.Ctx) *c02List {
 				l.lines = append(l.lines, h)
 				l.hosts = append(l.hosts, c02HostLine{h, []string{h}, true})
 			}
+		case r == 9 && c.Rng.Intn(2) == 0:
+			// A regular-expression rule for one name: dots escaped, digits as
+			// \d, here and there a letter as \w or a class, optionally
+			// anchored (what it accepts is decided by the expression alone).
+			var sb strings.Builder
+			for i := 0; i < len(h); i++ {
+				ch := h[i]
+				switch {
+				case ch == '.':
+					sb.WriteString(`\.`)
+				case ch >= '0' && ch <= '9':
+					sb.WriteString(`\d`)
+				case ch >= 'a' && ch <= 'z' && c.Rng.Intn(5) == 0:
+					sb.WriteString([]string{`\w`, `[a-z]`, `\w\w?`, `.`}[c.Rng.Intn(4)])
+				case ch >= 'a' && ch <= 'z' || ch == '-' || ch == '_':
+					sb.WriteByte(ch)
+				default:
+					sb.Reset()
+					i = len(h)
+				}
+			}
+			if sb.Len() == 0 {
+				break
+			}
+			expr := []string{"^", "", "^(www\\.)?"}[c.Rng.Intn(3)] + sb.String() + []string{"$", "", "\\.?$"}[c.Rng.Intn(3)]
+			re, rerr := regexp.Compile("(?i)" + expr)
+			if rerr != nil {
+				break
+			}
+			text := []string{"/", "@@/"}[c.Rng.Intn(2)] + expr + "/"
+			l.lines = append(l.lines, text)
+			l.specs[text] = &gen.Spec{Pattern: "/" + expr + "/", Exception: strings.HasPrefix(text, "@@")}
+			l.exprs[text] = re
+			c.Event("regular_expression_rules_derived_from_a_name", 1)
 		default:
 			l.lines = append(l.lines, []string{"! comment", "", "example.org##.banner", "# c", "||bad^$nosuch"}[c.Rng.Intn(5)])
 		}
@@ -443,6 +481,13 @@ func c02Run(c *core.Ctx, idx int) {
 				}
 			} else if app == ref.No {
 				continue
+			}
+			if re := l.exprs[nr.r.RuleText]; re != nil {
+				c.Eval(1)
+				if want, got := re.MatchString(q.Host), nr.r.Match(req); want != got {
+					c.Violation("regexp-rule-differs-from-its-expression", nil, c02Witness{List: []string{nr.r.RuleText}, Request: q, Field: "Match"},
+						"rule %q Match(host name %q) = %v, the expression says %v", nr.r.RuleText, q.Host, got, want)
+				}
 			}
 			if nr.r.Match(req) {
 				wantN = append(wantN, nr.r.RuleText)
